@@ -4,9 +4,13 @@
 // usage: harness.bin job.json     (job = {"packages":[{"path":..,"src":..}, …]} in dependency order)
 //
 // For every pair of variables V<i>a / V<i>b (declared anywhere, also inside function bodies):
-//   pair <i> <identical> <hex TypeName a> <hex TypeName b> <why> <term a> | <term b>
+//
+//	pair <i> <identical> <hex TypeName a> <hex TypeName b> <why> <term a> | <term b>
+//
 // For every W<i>t (operand) / W<i>i (interface) pair:
-//   impl <i> <types.Implements> t: (hexname functypename)… | v: (hexname functypename)… | <mset as I-term> | <iface term>
+//
+//	impl <i> <types.Implements> t: (hexname functypename)… | v: (hexname functypename)… | <mset as I-term> | <iface term>
+//
 // <why> classifies a disagreement between Identical and name equality by the differing attributes (or "-").
 package main
 
@@ -218,17 +222,33 @@ func table(b *abi.Builder, ms []meth) string {
 
 // attrs collects the attributes in which two types differ (a structural walk that mirrors the clauses
 // of the Go spec's type identity); "other" = anything the walk cannot attribute.
-func diffAttrs(x, y types.Type, out map[string]bool, depth int) {
+type prefixed struct {
+	m   map[string]bool
+	pre string
+}
+
+func (p prefixed) set(k string) { p.m[p.pre+k] = true }
+
+func diffAttrs(x, y types.Type, out0 map[string]bool, depth int, pre string) {
+	out := prefixed{out0, pre}
+	sub := pre // prefix for the children: below a func/struct/interface inside a type argument typeArgString falls back to types.TypeString
+	if pre == "targ:" {
+		switch types.Unalias(x).(type) {
+		case *types.Signature, *types.Struct, *types.Interface:
+			sub = "targ-fallback:"
+			out = prefixed{out0, sub}
+		}
+	}
 	if depth > 40 {
-		out["other:depth"] = true
+		out.set("other:depth")
 		return
 	}
 	if ax, ok := x.(*types.Alias); ok {
-		diffAttrs(types.Unalias(ax), y, out, depth+1)
+		diffAttrs(types.Unalias(ax), y, out0, depth+1, sub)
 		return
 	}
 	if ay, ok := y.(*types.Alias); ok {
-		diffAttrs(x, types.Unalias(ay), out, depth+1)
+		diffAttrs(x, types.Unalias(ay), out0, depth+1, sub)
 		return
 	}
 	if types.Identical(x, y) {
@@ -237,131 +257,152 @@ func diffAttrs(x, y types.Type, out map[string]bool, depth int) {
 	switch x := x.(type) {
 	case *types.Pointer:
 		if y, ok := y.(*types.Pointer); ok {
-			diffAttrs(x.Elem(), y.Elem(), out, depth+1)
+			diffAttrs(x.Elem(), y.Elem(), out0, depth+1, sub)
 			return
 		}
 	case *types.Slice:
 		if y, ok := y.(*types.Slice); ok {
-			diffAttrs(x.Elem(), y.Elem(), out, depth+1)
+			diffAttrs(x.Elem(), y.Elem(), out0, depth+1, sub)
 			return
 		}
 	case *types.Array:
 		if y, ok := y.(*types.Array); ok {
 			if x.Len() != y.Len() {
-				out["array-len"] = true
+				out.set("array-len")
 			}
-			diffAttrs(x.Elem(), y.Elem(), out, depth+1)
+			diffAttrs(x.Elem(), y.Elem(), out0, depth+1, sub)
 			return
 		}
 	case *types.Map:
 		if y, ok := y.(*types.Map); ok {
-			diffAttrs(x.Key(), y.Key(), out, depth+1)
-			diffAttrs(x.Elem(), y.Elem(), out, depth+1)
+			diffAttrs(x.Key(), y.Key(), out0, depth+1, sub)
+			diffAttrs(x.Elem(), y.Elem(), out0, depth+1, sub)
 			return
 		}
 	case *types.Chan:
 		if y, ok := y.(*types.Chan); ok {
 			if x.Dir() != y.Dir() {
-				out["chan-dir"] = true
+				out.set("chan-dir")
 			}
-			diffAttrs(x.Elem(), y.Elem(), out, depth+1)
+			diffAttrs(x.Elem(), y.Elem(), out0, depth+1, sub)
 			return
 		}
 	case *types.Signature:
 		if y, ok := y.(*types.Signature); ok {
 			if x.Variadic() != y.Variadic() {
-				out["variadic"] = true
+				out.set("variadic")
 			}
 			if x.Params().Len() != y.Params().Len() || x.Results().Len() != y.Results().Len() {
-				out["arity"] = true
+				out.set("arity")
 				return
 			}
 			for i := 0; i < x.Params().Len(); i++ {
-				diffAttrs(x.Params().At(i).Type(), y.Params().At(i).Type(), out, depth+1)
+				diffAttrs(x.Params().At(i).Type(), y.Params().At(i).Type(), out0, depth+1, sub)
 			}
 			for i := 0; i < x.Results().Len(); i++ {
-				diffAttrs(x.Results().At(i).Type(), y.Results().At(i).Type(), out, depth+1)
+				diffAttrs(x.Results().At(i).Type(), y.Results().At(i).Type(), out0, depth+1, sub)
 			}
 			return
 		}
 	case *types.Struct:
 		if y, ok := y.(*types.Struct); ok {
 			if x.NumFields() != y.NumFields() {
-				out["field-count"] = true
+				out.set("field-count")
 				return
 			}
 			for i := 0; i < x.NumFields(); i++ {
 				f, g := x.Field(i), y.Field(i)
 				if f.Embedded() != g.Embedded() {
-					out["embedded-flag"] = true
+					out.set("embedded-flag")
 				}
 				if f.Name() != g.Name() {
 					if f.Embedded() && g.Embedded() {
-						out["embedded-name"] = true
+						out.set("embedded-name")
 					} else {
-						out["field-name"] = true
+						out.set("field-name")
 					}
 				} else if !f.Exported() && f.Pkg() != g.Pkg() {
-					out["field-pkg"] = true
+					out.set("field-pkg")
 				}
 				if x.Tag(i) != y.Tag(i) {
-					out["tag"] = true
+					out.set("tag")
 				}
-				diffAttrs(f.Type(), g.Type(), out, depth+1)
+				diffAttrs(f.Type(), g.Type(), out0, depth+1, sub)
 			}
 			return
 		}
 	case *types.Interface:
 		if y, ok := y.(*types.Interface); ok {
 			if x.NumMethods() != y.NumMethods() {
-				out["method-count"] = true
+				out.set("method-count")
 				return
 			}
 			for i := 0; i < x.NumMethods(); i++ {
 				f, g := x.Method(i), y.Method(i)
 				if f.Name() != g.Name() {
-					out["method-name"] = true
+					out.set("method-name")
 				} else if !f.Exported() && f.Pkg() != g.Pkg() {
-					out["method-pkg"] = true
+					out.set("method-pkg")
 				}
-				diffAttrs(f.Type(), g.Type(), out, depth+1)
+				diffAttrs(f.Type(), g.Type(), out0, depth+1, sub)
 			}
 			return
 		}
 	case *types.Named:
 		if y, ok := y.(*types.Named); ok {
 			if x.Origin() != y.Origin() {
-				out["named-decl"] = true
+				if x.Obj().Pkg() == y.Obj().Pkg() && x.Obj().Name() == y.Obj().Name() {
+					out.set("named-decl:same-pkg-and-name")
+				} else {
+					out.set("named-decl")
+				}
 				return
 			}
 			for i := 0; i < x.TypeArgs().Len(); i++ {
-				diffAttrs(x.TypeArgs().At(i), y.TypeArgs().At(i), out, depth+1)
+				diffAttrs(x.TypeArgs().At(i), y.TypeArgs().At(i), out0, depth+1, "targ:")
 			}
 			return
 		}
 	case *types.Basic:
 		if _, ok := y.(*types.Basic); ok {
-			out["basic-kind"] = true
+			out.set("basic-kind")
 			return
 		}
 	}
-	out["kind"] = true
+	out.set("kind")
 }
 
 // whyNamesDiffer: for IDENTICAL types with different names, where the spellings diverge.
-func whyNamesDiffer(b *abi.Builder, x, y types.Type, out map[string]bool, inTarg bool, depth int) {
+// inTarg: inside a type argument; inFallback: additionally below a func/struct/interface there (types.TypeString region).
+func whyNamesDiffer(b *abi.Builder, x, y types.Type, out map[string]bool, inTarg, inFallback bool, depth int) {
 	if depth > 40 {
 		out["other:depth"] = true
 		return
+	}
+	if inTarg {
+		switch types.Unalias(x).(type) {
+		case *types.Signature, *types.Struct, *types.Interface:
+			inFallback = true
+		}
+	}
+	if inFallback {
+		ax, okx := x.(*types.Alias)
+		ay, oky := y.(*types.Alias)
+		if okx != oky || (okx && ax.Obj() != ay.Obj()) {
+			out["targ-fallback-spelling"] = true
+		}
 	}
 	x, y = types.Unalias(x), types.Unalias(y)
 	switch x := x.(type) {
 	case *types.Basic:
 		if y, ok := y.(*types.Basic); ok {
 			if x.Name() != y.Name() {
-				if inTarg {
+				switch {
+				case inFallback:
+					out["targ-fallback-spelling"] = true
+				case inTarg:
 					out["targ-basic-spelling"] = true
-				} else {
+				default:
 					out["basic-spelling"] = true
 				}
 			}
@@ -369,58 +410,62 @@ func whyNamesDiffer(b *abi.Builder, x, y types.Type, out map[string]bool, inTarg
 		}
 	case *types.Pointer:
 		if y, ok := y.(*types.Pointer); ok {
-			whyNamesDiffer(b, x.Elem(), y.Elem(), out, inTarg, depth+1)
+			whyNamesDiffer(b, x.Elem(), y.Elem(), out, inTarg, inFallback, depth+1)
 			return
 		}
 	case *types.Slice:
 		if y, ok := y.(*types.Slice); ok {
-			whyNamesDiffer(b, x.Elem(), y.Elem(), out, inTarg, depth+1)
+			whyNamesDiffer(b, x.Elem(), y.Elem(), out, inTarg, inFallback, depth+1)
 			return
 		}
 	case *types.Array:
 		if y, ok := y.(*types.Array); ok {
-			whyNamesDiffer(b, x.Elem(), y.Elem(), out, inTarg, depth+1)
+			whyNamesDiffer(b, x.Elem(), y.Elem(), out, inTarg, inFallback, depth+1)
 			return
 		}
 	case *types.Map:
 		if y, ok := y.(*types.Map); ok {
-			whyNamesDiffer(b, x.Key(), y.Key(), out, inTarg, depth+1)
-			whyNamesDiffer(b, x.Elem(), y.Elem(), out, inTarg, depth+1)
+			whyNamesDiffer(b, x.Key(), y.Key(), out, inTarg, inFallback, depth+1)
+			whyNamesDiffer(b, x.Elem(), y.Elem(), out, inTarg, inFallback, depth+1)
 			return
 		}
 	case *types.Chan:
 		if y, ok := y.(*types.Chan); ok {
-			whyNamesDiffer(b, x.Elem(), y.Elem(), out, inTarg, depth+1)
+			whyNamesDiffer(b, x.Elem(), y.Elem(), out, inTarg, inFallback, depth+1)
 			return
 		}
 	case *types.Signature:
 		if y, ok := y.(*types.Signature); ok && x.Params().Len() == y.Params().Len() && x.Results().Len() == y.Results().Len() {
 			for i := 0; i < x.Params().Len(); i++ {
-				whyNamesDiffer(b, x.Params().At(i).Type(), y.Params().At(i).Type(), out, inTarg, depth+1)
+				whyNamesDiffer(b, x.Params().At(i).Type(), y.Params().At(i).Type(), out, inTarg, inFallback, depth+1)
 			}
 			for i := 0; i < x.Results().Len(); i++ {
-				whyNamesDiffer(b, x.Results().At(i).Type(), y.Results().At(i).Type(), out, inTarg, depth+1)
+				whyNamesDiffer(b, x.Results().At(i).Type(), y.Results().At(i).Type(), out, inTarg, inFallback, depth+1)
 			}
 			return
 		}
 	case *types.Struct:
 		if y, ok := y.(*types.Struct); ok && x.NumFields() == y.NumFields() {
 			for i := 0; i < x.NumFields(); i++ {
-				whyNamesDiffer(b, x.Field(i).Type(), y.Field(i).Type(), out, inTarg, depth+1)
+				whyNamesDiffer(b, x.Field(i).Type(), y.Field(i).Type(), out, inTarg, inFallback, depth+1)
 			}
 			return
 		}
 	case *types.Interface:
 		if y, ok := y.(*types.Interface); ok && x.NumMethods() == y.NumMethods() {
+			if inFallback && x.NumMethods() == 0 && x != y {
+				// `any` prints as "any", a literal interface{} as "interface{}"
+				out["targ-fallback-spelling"] = true
+			}
 			for i := 0; i < x.NumMethods(); i++ {
-				whyNamesDiffer(b, x.Method(i).Type(), y.Method(i).Type(), out, inTarg, depth+1)
+				whyNamesDiffer(b, x.Method(i).Type(), y.Method(i).Type(), out, inTarg, inFallback, depth+1)
 			}
 			return
 		}
 	case *types.Named:
 		if y, ok := y.(*types.Named); ok && x.TypeArgs().Len() == y.TypeArgs().Len() {
 			for i := 0; i < x.TypeArgs().Len(); i++ {
-				whyNamesDiffer(b, x.TypeArgs().At(i), y.TypeArgs().At(i), out, true, depth+1)
+				whyNamesDiffer(b, x.TypeArgs().At(i), y.TypeArgs().At(i), out, true, inFallback, depth+1)
 			}
 			return
 		}
@@ -500,9 +545,9 @@ func main() {
 		why := map[string]bool{}
 		if id != (na == nb) {
 			if id {
-				whyNamesDiffer(b, ta, tb, why, false, 0)
+				whyNamesDiffer(b, ta, tb, why, false, false, 0)
 			} else {
-				diffAttrs(ta, tb, why, 0)
+				diffAttrs(ta, tb, why, 0, "")
 			}
 		}
 		fmt.Fprintf(w, "pair %d %s %s %s %s %s | %s\n", i, b01(id), hx(na), hx(nb), keys(why), s.term(ta), s.term(tb))
@@ -524,7 +569,7 @@ func main() {
 		}
 		im := ifaceMethods(it)
 		fmt.Fprintf(w, "impl %d %s %s t: %s | v: %s | %s | %s\n", i, b01(types.Implements(tt, it)), b01(types.IsInterface(tt)),
-			table(b, im), table(b, vm), s.methodsTerm(vm), s.term(ti))
+			table(b, im), table(b, vm), s.methodsTerm(vm), s.term(ti.Underlying()))
 	}
 }
 
